@@ -361,6 +361,25 @@ def meshed_copies(ctx):
             rp = dict(copied_with=how, problems=probs)
             ctx.fail("aliasing:meshed-copy", f"{how} of a meshed device: {probs[0]}", rp)
             first = first or dict(key="aliasing:meshed-copy", what=probs[0], **rp)
+    # a copy / a non-in-place transform of a device is the same kind of object: stated in the same length unit, with the same
+    # layer, and (for a copy and for the identity transforms) equal to the original -- here for a device stated in nm
+    nm = zoo.make_device("bar_hole", ctx.rng, mesh=False, length_units="nm", scale=1000.0)
+    made = {"copy()": nm.copy(), "translate(0, 0)": nm.translate(dx=0.0, dy=0.0), "rotate(0)": nm.rotate(0.0), "scale(1, 1)": nm.scale(xfact=1.0, yfact=1.0),
+            "translate(3, -2)": nm.translate(dx=3000.0, dy=-2000.0), "rotate(30)": nm.rotate(30.0), "scale(-1, 2)": nm.scale(xfact=-1.0, yfact=2.0)}
+    for how, d_ in made.items():
+        ctx.case(("device-derived-object", how), nontrivial=True)
+        ctx.count("derived_devices_compared_with_their_original")
+        bad = None
+        if d_.length_units != nm.length_units:
+            bad = f"is stated in {d_.length_units!r}, the original in {nm.length_units!r}"
+        elif d_.layer != nm.layer:
+            bad = "has another layer"
+        elif how in ("copy()", "translate(0, 0)", "rotate(0)", "scale(1, 1)") and not (d_ == nm):
+            bad = "does not compare equal to the original"
+        if bad:
+            rp = dict(derived_by=how, problem=bad)
+            ctx.fail("derived-device-differs", f"Device.{how} of a device stated in nm {bad}", rp)
+            first = first or dict(key="derived-device-differs", what=bad, **rp)
     return first
 
 
